@@ -106,7 +106,7 @@ PROPS = {
               "conversions / block copies (nn, repetition); distinct by descriptor hash; non-trivial when ell >= 1 or "
               "the conversion input is non-empty"
              " Later additions have their own keys in by_case_class (DESIGN.md 5.1): call sequences and object life cycles, multi-threaded cases (also run under ThreadSanitizer), sweeps over every value of a size parameter, placement / alignment / data-structure modes drawn from the case hash."),
-        require={"all": ["calls_with_write_protected_inputs", "power_of_two_products", "small_stack_calls", "concurrent_lifecycle_uses", "product_lanes_checked", "conversion_values_checked", "blocks_checked", "concurrent_kernel_calls", "exhaustive_ell_values", "lifecycle_uses", "lifecycle_mass_objects_alive", "same_buffers_other_data_calls"]},
+        require={"all": ["sum_boundary_products", "calls_with_write_protected_inputs", "power_of_two_products", "small_stack_calls", "concurrent_lifecycle_uses", "product_lanes_checked", "conversion_values_checked", "blocks_checked", "concurrent_kernel_calls", "exhaustive_ell_values", "lifecycle_uses", "lifecycle_mass_objects_alive", "same_buffers_other_data_calls"]},
         assumptions=["oracle: operands reduced modulo each prime, products accumulated with 128-bit arithmetic; CRT "
                      "constants recomputed by the oracle", ASAN_NOTE],
     ),
